@@ -165,22 +165,29 @@ Qed.
 
 Theorem batch_law_values count fill v items : iter_items v = Ok items ->
   (count = 0 -> f_batch count fill v = Err E_InvalidOperation) /\
-  (0 < count -> exists runs, f_batch count fill v = Ok (VSeq (map VSeq runs)) /\ BatchLaw count fill items runs).
+  (0 < count ->
+     (exists runs, f_batch count fill v = Ok (VSeq (map VSeq runs)) /\ BatchLaw count fill items runs) \/
+     (f_batch count fill v = Err E_InvalidOperation /\ fill <> None /\ 100000 < batch_missing count items)).
 Proof.
   intros E. unfold f_batch. split.
   - intros ->. reflexivity.
-  - intros Hc. replace (count =? 0) with false by lia. rewrite E. cbn [bind]. eexists; split; [reflexivity|].
-    apply batch_of_law. exact Hc.
+  - intros Hc. replace (count =? 0) with false by lia. rewrite E. cbn [bind].
+    destruct fill as [f|].
+    + destruct (100000 <? batch_missing count items) eqn:M.
+      * right. repeat split; [congruence|lia].
+      * left. eexists; split; [reflexivity|]. apply batch_of_law. exact Hc.
+    + left. eexists; split; [reflexivity|]. apply batch_of_law. exact Hc.
 Qed.
 
 Theorem slice_law_values count fill v items : iter_items v = Ok items ->
-  (count = 0 -> f_slice count fill v = Err E_InvalidOperation) /\
-  (0 < count -> exists runs, f_slice count fill v = Ok (VSeq (map VSeq runs)) /\ SliceLaw count fill items runs).
+  (count = 0 \/ 100000 < count -> f_slice count fill v = Err E_InvalidOperation) /\
+  (0 < count <= 100000 -> exists runs, f_slice count fill v = Ok (VSeq (map VSeq runs)) /\ SliceLaw count fill items runs).
 Proof.
   intros E. unfold f_slice. split.
-  - intros ->. reflexivity.
-  - intros Hc. replace (count =? 0) with false by lia. rewrite E. cbn [bind]. eexists; split; [reflexivity|].
-    apply slice_of_law. exact Hc.
+  - intros [-> | H]; [reflexivity|]. replace (count =? 0) with false by lia. replace (100000 <? count) with true by lia. reflexivity.
+  - intros Hc. replace (count =? 0) with false by lia. replace (100000 <? count) with false by lia.
+    rewrite E. cbn [bind]. eexists; split; [reflexivity|].
+    apply slice_of_law. lia.
 Qed.
 
 Theorem min_max_values v items : wfn v = true -> iter_items v = Ok items ->
@@ -247,7 +254,8 @@ Proof.
   repeat split; intros;
     unfold f_sort, f_unique, f_groupby, f_batch, f_slice, f_min, f_max;
     try (destruct (count =? 0); [exact I|]);
-    try (apply safe_bind; [apply safe_iter|intros; exact I]);
+    try (destruct (100000 <? count); [exact I|]);
+    try (apply safe_bind; [apply safe_iter|intros; try exact I; destruct fill; try exact I; destruct (100000 <? _); exact I]);
     try apply safe_reverse.
   unfold f_last. destruct v; try exact I;
     try (apply safe_bind; [apply safe_reverse|intros; apply safe_bind; [apply safe_iter|intros; exact I]]).
